@@ -5,7 +5,7 @@ from .. import gen, hist
 class Spec:
     id = "C02"
     level = "exploration"
-    rule = ("Same generator as C01 but all scripts succeed, with more repeated commands, dependency-dropping .do "
+    rule = ("Same generator as C01 (failing scripts at a low rate), with more repeated commands, dependency-dropping .do "
             "edits and rule additions/removals. Oracle: for every command the multiset of script starts in the trace "
             "equals the multiset predicted by the reference model, which tracks per target the version of each "
             "declared dependency seen at its last successful build. Non-trivial = a command that follows at least "
@@ -20,12 +20,22 @@ class Spec:
         return 1600 if tier == "quick" else 16000
 
     def strategy(self, tier):
-        o = {"p_failflag": 0, "p_csum": 25,
-             "weights": {"cmd": 50, "failflag": 0, "setdo": 12, "crash": 6, "adddo": 6, "rmdo": 5, "rmtarget": 8,
+        o = {"p_failflag": 12, "p_csum": 25, "p_focus": 40,
+             "weights": {"cmd": 50, "failflag": 5, "setdo": 12, "crash": 6, "dropdep": 5, "adddo": 6, "rmdo": 5, "rmtarget": 8,
                          "mwrite": 4, "mremove": 3}}
+        # second family: tiny projects, small alphabet (command / edit / .do edit that changes the declared
+        # dependencies / remove a produced file / toggle a failure): "stopped declaring X, X edited later" shapes
+        t = {"min_targets": 2, "max_targets": 3, "max_sources": 3, "max_dirs": 0, "p_csum": 20, "p_always": 0,
+             "p_ifc": 0, "p_failflag": 30, "p_default": 0, "min_ops": 10, "max_ops": 20, "max_cmd_targets": 1,
+             "p_focus": 60, "edit_variants": 2,
+             "weights": {"cmd": 45, "edit": 25, "setdo": 14, "rmtarget": 8, "failflag": 8, "dropdep": 10, "touch": 0, "adddo": 0,
+                         "rmdo": 0, "mkpath": 0, "rmpath": 0, "ext": 0, "redo": 2, "crash": 2, "mwrite": 0,
+                         "mremove": 0}}
         if tier == "thorough":
             o.update(max_targets=14, max_ops=30)
-        return gen.histories(o)
+            t.update(max_ops=30)
+        from hypothesis import strategies as st
+        return st.one_of(gen.histories(o), gen.histories(t))
 
     def run_case(self, case, tier):
         return hist.HistoryRunner(case, self.checks, tag="c02").run()
